@@ -7,7 +7,6 @@ import (
 	"sort"
 
 	"github.com/gocql/gocql"
-	"verifharness/vh"
 )
 
 // ---------- calling the real code ----------
@@ -35,7 +34,7 @@ func MarshalAnswer(proto byte, t *Ty, v *Val) string {
 	if st != "ok" {
 		return st
 	}
-	return "ok " + vh.Hex(Canon(proto, t, v, b))
+	return "ok " + HexC(Canon(proto, t, v, b))
 }
 
 // Unmarshal calls gocql.Unmarshal into a fresh zero value of the Go type and prints the result.
@@ -77,7 +76,7 @@ func deref(v *Val) *Val {
 	for v != nil && v.Tag == "ptr" {
 		v = v.Elems[0]
 	}
-	return v
+	return v.Plain()
 }
 
 func readSize(proto byte, d []byte) (n int, rest []byte, ok bool) {
@@ -178,9 +177,13 @@ func Canon(proto byte, t *Ty, v *Val, data []byte) []byte {
 		}
 		type pair struct{ k, v item }
 		pairs := make([]pair, 0, n)
-		encs := make([][]byte, len(v.Elems)/2)
-		for i := range encs {
-			encs[i] = keyEnc(proto, t.Elems[0], v.Elems[2*i])
+		encs := make(map[string]int, len(v.Elems)/2)
+		for i := 0; i < len(v.Elems)/2; i++ {
+			if e := keyEnc(proto, t.Elems[0], v.Elems[2*i]); e != nil {
+				if _, dup := encs[string(e)]; !dup {
+					encs[string(e)] = i
+				}
+			}
 		}
 		for i := 0; i < n; i++ {
 			k, r, ok := readItem(proto, rest)
@@ -193,11 +196,8 @@ func Canon(proto byte, t *Ty, v *Val, data []byte) []byte {
 			}
 			rest = r2
 			if !val.null {
-				for j, e := range encs {
-					if e != nil && bytes.Equal(e, k.b) {
-						val.b = Canon(proto, t.Elems[1], v.Elems[2*j+1], val.b)
-						break
-					}
+				if j, ok := encs[string(k.b)]; ok {
+					val.b = Canon(proto, t.Elems[1], v.Elems[2*j+1], val.b)
 				}
 			}
 			pairs = append(pairs, pair{k, val})
@@ -249,6 +249,10 @@ func Normalize(proto byte, t *Ty, v *Val) {
 	if v == nil {
 		return
 	}
+	if v.Tag == "slrep" || v.Tag == "mapseq" { // one element / ascending integer keys: nothing to order
+		Normalize(proto, elemTy(t), v.Elems[0])
+		return
+	}
 	if v.Tag == "ptr" {
 		Normalize(proto, t, v.Elems[0])
 		return
@@ -285,10 +289,18 @@ func Normalize(proto byte, t *Ty, v *Val) {
 		seen := map[string]bool{}
 		var ps []pair
 		for i := 0; i+1 < len(v.Elems); i += 2 {
-			if s := v.Elems[i].String(); !seen[s] {
+			// one entry per ENCODED key: two Go keys with the same encoding ("256" and "+256" bound to a smallint
+			// key) would be two wire entries with equal keys whose order is Go's map iteration order
+			enc := keyEnc(proto, t.Elems[0], v.Elems[i])
+			s := "v:" + v.Elems[i].String()
+			if enc != nil {
+				s = "e:" + string(enc)
+			}
+			if !seen[s] && !seen["v:"+v.Elems[i].String()] {
 				seen[s] = true
+				seen["v:"+v.Elems[i].String()] = true
 				Normalize(proto, t.Elems[1], v.Elems[i+1])
-				ps = append(ps, pair{v.Elems[i], v.Elems[i+1], keyEnc(proto, t.Elems[0], v.Elems[i])})
+				ps = append(ps, pair{v.Elems[i], v.Elems[i+1], enc})
 			}
 		}
 		sort.SliceStable(ps, func(i, j int) bool { return bytes.Compare(ps[i].enc, ps[j].enc) < 0 })
@@ -311,4 +323,14 @@ func Normalize(proto byte, t *Ty, v *Val) {
 			}
 		}
 	}
+}
+
+func elemTy(t *Ty) *Ty {
+	switch t.Name {
+	case "list", "set":
+		return t.Elems[0]
+	case "map":
+		return t.Elems[1]
+	}
+	return &Ty{Name: "int"}
 }
